@@ -317,12 +317,22 @@ fn parse_cron_part(
             if start.is_empty() {
                 return Err("Can't find start number of range".to_string());
             }
+            // 7 is Sunday. As the end of a weekday range it comes after Saturday,
+            // so that `5-7` is Fri, Sat, Sun and `0-7` is every day.
+            let sunday_is_start = start == "7";
             let start = parse_value(start, cron_type)?;
             let end = range_parts.next().unwrap_or_default();
             if end.is_empty() {
                 return Err("Can't find end number of range".to_string());
             }
-            let end = parse_value(end, cron_type)?;
+            let sunday_is_end =
+                cron_type == &CronPartType::DayOfWeek && end == "7" && !sunday_is_start;
+            let end = if sunday_is_end {
+                values.insert(0);
+                6
+            } else {
+                parse_value(end, cron_type)?
+            };
 
             if start > end {
                 return Err(
